@@ -139,26 +139,33 @@ def run(ctx, rep):
                 rep.violate(Violation('C05.R2', '%s:%d in %s' % (IR.rel(fn.file), fn.line, fn.name), bad, site='nsync_sem_wait_with_cancel_/deadline-flag'))
     if nfl == 0:
         raise AnalysisBroken('C05.R2: no exit of the cancellable wait after a sleep was interpreted')
-    # ---- R4
+    # ---- R4 (the sleep may sit in the wait function itself or in a static helper it was split into; arguments are traced through the calls)
     for wname in ('nsync_cv_wait_with_deadline_generic', 'nsync_mu_wait_with_deadline'):
         wf = mod.func(wname)
         if wf is None:
             raise AnalysisBroken('C05: %s not found' % wname)
-        sleeps = [i for i in wf.real_insts() if i.op == 'call' and i.callee in ('nsync_sem_wait_with_cancel_', 'nsync_mu_semaphore_p', 'nsync_mu_semaphore_p_with_deadline')]
-        if not sleeps:
+        args64 = [a['id'] for a in wf.args if a['ty'] == 'i64']
+        notearg = wf.args[-1]['id']
+        if len(args64) < 2:
+            raise AnalysisBroken('C05.R4: %s does not take the deadline as (seconds, nanoseconds)' % wname)
+        binding = util.bind_params(mod, wf, args64[:2] + [notearg])
+        nsl = 0
+        for gname, env in sorted(binding.items()):
+            g = mod.func(gname)
+            sleeps = [i for i in g.real_insts() if i.op == 'call' and i.callee in ('nsync_sem_wait_with_cancel_', 'nsync_mu_semaphore_p', 'nsync_mu_semaphore_p_with_deadline')]
+            for sl in sleeps:
+                nsl += 1
+                ok = sl.callee == 'nsync_sem_wait_with_cancel_' and len(sl.ops) >= 4 and sl.ops[1] == env.get(args64[0]) and sl.ops[2] == env.get(args64[1]) and sl.ops[3] == env.get(notearg)
+                guarded = any(p == 'eq' and IR.is_int(b) and IR.ival(b) == 0 and isinstance(a, str) and a in g.imap and g.imap[a].op == 'phi' for p, a, b in
+                              (n for n in (_norm_cmp(g, c, s_) for c, s_ in _guards(g, sl)) if n))
+                rep.instance('C05.R4', '%s sleeps via %s at %s (deadline+note passed: %s, guarded by outcome == 0: %s)' % (wname, sl.callee, sl.where(), ok, guarded))
+                rep.oblig('C05.R4', ok and guarded)
+                if not ok:
+                    rep.violate(Violation('C05.R4', sl.where(), '%s sleeps without passing on the caller\'s abs_deadline and cancel_note: once they have passed the call still needs a wake-up' % wname, site='%s/sleep-args' % wname))
+                elif not guarded:
+                    rep.violate(Violation('C05.R4', sl.where(), '%s can go back to sleep after the sleep already ended with a timeout/cancellation' % wname, site='%s/resleep' % wname))
+        if nsl == 0:
             raise AnalysisBroken('C05.R4: no sleep found in %s' % wname)
-        for sl in sleeps:
-            args64 = [a['id'] for a in wf.args if a['ty'] == 'i64']
-            notearg = wf.args[-1]['id']
-            ok = sl.callee == 'nsync_sem_wait_with_cancel_' and list(sl.ops[1:3]) == args64[:2] and sl.ops[3] == notearg
-            guarded = any(p == 'eq' and IR.is_int(b) and IR.ival(b) == 0 and isinstance(a, str) and a in wf.imap and wf.imap[a].op == 'phi' for p, a, b in
-                          (n for n in (_norm_cmp(wf, c, s) for c, s in _guards(wf, sl)) if n))
-            rep.instance('C05.R4', '%s sleeps via %s at %s (deadline+note passed: %s, guarded by outcome == 0: %s)' % (wname, sl.callee, sl.where(), ok, guarded))
-            rep.oblig('C05.R4', ok and guarded)
-            if not ok:
-                rep.violate(Violation('C05.R4', sl.where(), '%s sleeps without passing on the caller\'s abs_deadline and cancel_note: once they have passed the call still needs a wake-up' % wname, site='%s/sleep-args' % wname))
-            elif not guarded:
-                rep.violate(Violation('C05.R4', sl.where(), '%s can go back to sleep after the sleep already ended with a timeout/cancellation' % wname, site='%s/resleep' % wname))
     # ---- R5: registration on the cancel note (lockset engine)
     from .. import objmodel
     from .C08 import holds
